@@ -402,6 +402,13 @@ func NewProcessorOptionsStmtBase(stmt *influxql.SelectStatement) (opt ProcessorO
 		}
 	}
 	if stmt.IsPromQuery {
+		// A PromQL aggregation with `without` always drops the metric name: series of different
+		// metrics that agree on the remaining labels belong to one group. The metric name is a tag
+		// of the stored series, so it is excluded like the labels of the list.
+		if stmt.Without && ContainDim(opt.Dimensions, promMetricNameLabel) {
+			opt.Dimensions = append(opt.Dimensions, promMetricNameLabel)
+			opt.GroupBy[promMetricNameLabel] = struct{}{}
+		}
 		sort.Strings(opt.Dimensions)
 	}
 	opt.Ascending = stmt.TimeAscending()
@@ -843,6 +850,9 @@ func (opt *ProcessorOptions) SetFill(fill influxql.FillOption) {
 func (opt *ProcessorOptions) FieldWildcard() bool {
 	return opt.HasFieldWildcard
 }
+
+// promMetricNameLabel is the label that carries the metric name of a Prometheus series.
+const promMetricNameLabel = "__name__"
 
 func ContainDim(des []string, src string) bool {
 	for i := range des {
